@@ -1,9 +1,11 @@
+import GomlVerif.Driver.C04
 import GomlVerif.Driver.C05
 import GomlVerif.Driver.C15
 import GomlVerif.Driver.C20
 
 def main (args : List String) : IO UInt32 := do
   match args with
+  | ["c04"] => Goml.Driver.C04.main; return 0
   | ["c05"] => Goml.Driver.C05.main; return 0
   | ["c15"] => Goml.Driver.C15.main; return 0
   | ["c20"] => Goml.Driver.C20.main; return 0
